@@ -110,11 +110,17 @@ Tag(S) == {c \o "@" \o ToString(l) : c \in S}
 NextT ==
   /\ l <= Len(Traces[tid].events)
   /\ \/ /\ Matches(Ev)
-        /\ fails' = fails \cup Tag(StateFails(objs', Ev.post, Ev.arrays, arr) \cup OutcomeFails(Ev))
+        /\ fails' = fails \cup Tag(StateFails(objs', Ev.post, Ev.arrays, arr) \cup OutcomeFails(Ev)
+                                   \* the reference value of a model term is the fit of a FRESH estimator constructed with the
+                                   \* same parameters: a fit that differs from it also breaks "clone / set_params behave
+                                   \* identically when fitted" (C18)
+                                   \cup (IF Ev.ev = "Fit" /\ "C17.model_is_function_of_last_fit" \in StateFails(objs', Ev.post, Ev.arrays, arr)
+                                         THEN {"C18.fit_equals_fit_of_fresh_estimator_with_same_parameters"} ELSE {}))
      \/ /\ ~ENABLED Matches(Ev)
         /\ UNCHANGED <<objs, handles, last>>
         /\ fails' = fails \cup Tag({"TRACE.no_matching_action"})
   /\ ex' = ex \cup StateClauses \cup OutcomeClauses(Ev)
+              \cup (IF Ev.ev = "Fit" THEN {"C18.fit_equals_fit_of_fresh_estimator_with_same_parameters"} ELSE {})
   /\ arr' = Ev.arrays      \* a change is blamed on the event that made it, once
   /\ l' = l + 1 /\ UNCHANGED tid
 
